@@ -22,7 +22,12 @@
 From Coq Require Import NArith ZArith List Bool Sorting.Sorted Sorting.Permutation.
 From KdV Require Import Base.Wrap64 Pfn.BitmapModel Pfn.RegionModel Pfn.PfnSpec
                         Pfn.BitmapProofs Pfn.RegionProofs
-                        Pfn.DdGeomModel Pfn.DdGeomProofs Pfn.ElfBitsModel Pfn.ElfProofs.
+                        Pfn.DdGeomModel Pfn.DdGeomProofs Pfn.ElfBitsModel Pfn.ElfProofs
+                        Pfn.SadGeomModel Pfn.SadGeomProofs Pfn.FmtBridge Pfn.FmtReadable.
+From KdV Require Import Fmt.Codec Fmt.ImageSpec Fmt.BitmapSpec.
+From KdV Require Fmt.PfnModel Fmt.DiskdumpModel Fmt.DiskdumpSpec Fmt.DiskdumpProofs
+                 Fmt.SadumpModel Fmt.SadumpSpec Fmt.SadumpProofs Fmt.SadumpOpenProofs
+                 Fmt.ElfSpec Fmt.ElfModel Fmt.ElfProofs Fmt.ElfOpenProofs.
 Import ListNotations.
 Local Open Scope N_scope.
 
@@ -300,6 +305,149 @@ Example C07_elf_nonvacuous :
   elf_find_clear true 12 segs None 1 = 4 /\
   elf_find_set false 12 segs None 4503599627370496 = None.
 Proof. vm_compute. repeat split; reflexivity. Qed.
+
+(** ** SADUMP: where the two page maps come from (sadump.c open_common, read_bitmap,
+    mem_pagemap_revalidate) *)
+
+Theorem C07_sadump_geometry : forall hdr_pos bs sub bb db,
+  let g := sadump_geom hdr_pos bs sub bb db in
+  sg_mem_off g = hdr_pos + bs * (1 + sub) /\ sg_mem_size g = bs * bb /\
+  sg_bmp_pos g = sg_mem_off g + sg_mem_size g /\ sg_bmp_len g = bs * db /\
+  sg_data_pos g = sg_bmp_pos g + sg_bmp_len g.
+Proof. exact sadump_geometry. Qed.
+Print Assumptions C07_sadump_geometry.
+
+(** file.pagemap's regions are the maximal runs (MSB-0 numbering) of the dumpable
+    bitmap, memory.pagemap's those of the memory bitmap; max_pfn is clipped to the
+    capacity of each *)
+Theorem C07_sadump_sources : forall al (mem dump rest : list N) hdr_pos bs sub bb db max_pfn,
+  length mem = N.to_nat (bs * bb) -> length dump = N.to_nat (bs * db) ->
+  wf_bytes mem -> wf_bytes dump ->
+  let g := sadump_geom hdr_pos bs sub bb db in
+  (forall orc,
+     fst (sd_file_regions al (mem ++ dump ++ rest) g max_pfn orc)
+       = (if bs * db * 8 <? max_pfn then bs * db * 8 else max_pfn) /\
+     match fst (snd (sd_file_regions al (mem ++ dump ++ rest) g max_pfn orc)) with
+     | ROk rs => runs_from (bit_of true dump) 0 (bs * db * 8) 0 SADUMP_PAGE true rs
+     | RNoMem _ => In false orc
+     | ROob | RFuel => False
+     end) /\
+  (forall orc,
+     fst (sd_mem_regions al (mem ++ dump ++ rest) g max_pfn orc)
+       = (if bs * bb * 8 <? max_pfn then bs * bb * 8 else max_pfn) /\
+     match fst (snd (sd_mem_regions al (mem ++ dump ++ rest) g max_pfn orc)) with
+     | ROk rs => runs_from (bit_of true mem) 0 (bs * bb * 8) 0 SADUMP_PAGE true rs
+     | RNoMem _ => In false orc
+     | ROob | RFuel => False
+     end).
+Proof. exact sadump_sources. Qed.
+Print Assumptions C07_sadump_sources.
+
+(** ** The bridge to C01's reader models (Pfn/FmtBridge.v)
+
+    Fmt/PfnModel walks a bitmap bit by bit; Pfn/BitmapModel follows the C scanners.
+    They return the same region list, record by record. *)
+Theorem C07_fmt_bridge_regions : forall msb0 al bm start_pfn end_pfn fileoff elemsz orc rs orc',
+  wf_bytes bm -> (end_pfn + 7) / 8 <= N.of_nat (length bm) ->
+  regions_from_bitmap true msb0 al bm start_pfn end_pfn fileoff elemsz [] orc = (ROk rs, orc') ->
+  rs = List.map conv_region (Fmt.PfnModel.regions_from_bitmap msb0 bm start_pfn end_pfn fileoff elemsz).
+Proof. exact bridge_regions. Qed.
+Print Assumptions C07_fmt_bridge_regions.
+
+(** ** bit set <=> readable, composed with C01's round-trip theorems
+
+    [has_page img p]: the image holds page p.  [mapped] / [mapped1] / [emapped]: bit p
+    of file.pagemap as the opened state's region (segment) arrays define it — which the
+    theorems above show is what get_bits / find_set / find_clear report. *)
+
+(** diskdump, one file holding the whole dump ([_single_file]: for split sets C01 has
+    the reader theorem, the composition is not done here) *)
+Theorem C07_diskdump_bit_iff_readable_single_file :
+  forall decompress l pages img,
+  Fmt.DiskdumpSpec.dd_wf l img -> Fmt.DiskdumpSpec.dl_split l = false ->
+  Forall2 (Fmt.DiskdumpSpec.stores decompress) pages img ->
+  len (Fmt.DiskdumpSpec.encode_dd l pages) < 2^64 ->
+  let rd := read_files [Fmt.DiskdumpSpec.encode_dd l pages] in
+  let st := Fmt.DiskdumpProofs.expected_state l pages in
+  let maps := List.map conv_map (Fmt.DiskdumpModel.dd_maps st) in
+  Fmt.DiskdumpModel.dd_open rd 1 = Ok st /\ wf_maps maps /\
+  forall p,
+    mapped maps p = has_page img p /\
+    (mapped maps p = true <->
+     Fmt.DiskdumpModel.dd_read_page rd decompress st false p <> Err ERR_NODATA).
+Proof. exact DD.bit_iff_readable. Qed.
+Print Assumptions C07_diskdump_bit_iff_readable_single_file.
+
+(** diskdump memory.pagemap: exactly the frames of the 1st bitmap the writer lays out
+    (stored pages or extra RAM frames) *)
+Theorem C07_diskdump_memory_pagemap :
+  forall (l : Fmt.DiskdumpSpec.dd_layout) (pages : list (option Fmt.DiskdumpSpec.dd_page)) img al orc res o',
+  Fmt.DiskdumpSpec.dd_wf l img -> Fmt.DiskdumpSpec.dl_two_bitmaps l = true ->
+  let pgsz := Fmt.DiskdumpSpec.dl_page_size l in
+  let h := Fmt.DiskdumpSpec.dl_bmp_blocks l in
+  let nb := N.to_nat (h * pgsz) in
+  let bits := List.map (@is_some _) pages in
+  let ram := Fmt.DiskdumpSpec.orb_lists bits (Fmt.DiskdumpSpec.dl_mem_extra l) in
+  (length ram <= 8 * nb)%nat ->
+  dd_mem_regions false al (bits_to_bytes false nb ram ++ bits_to_bytes false nb bits)
+                 pgsz (2 * h) (Fmt.DiskdumpSpec.dl_max_mapnr l) orc = (res, o') ->
+  match res with
+  | ROk rs => forall p, existsb (fun r => inb r p) rs = nth (N.to_nat p) ram false
+  | RNoMem _ => In false orc
+  | ROob | RFuel => False
+  end.
+Proof. exact dd_memory_pagemap. Qed.
+Print Assumptions C07_diskdump_memory_pagemap.
+
+(** SADUMP, single partition ([_single]: media backups and disk sets have C01 reader
+    theorems of the same shape; not composed here) *)
+Theorem C07_sadump_bit_iff_readable_single : forall l img,
+  Fmt.SadumpOpenProofs.sd_wf l img ->
+  let rd := read_files (Fmt.SadumpSpec.encode_sadump l img) in
+  exists st, Fmt.SadumpModel.sd_open rd 1 = Ok st /\
+    let m := SD.file_map st (Fmt.SadumpOpenProofs.nbytes l) in
+    wf_map m /\
+    forall p,
+      mapped1 m p = has_page img p /\
+      (mapped1 m p = true <-> Fmt.SadumpModel.sd_read_page rd st false p <> Err ERR_NODATA).
+Proof. exact SD.bit_iff_readable. Qed.
+Print Assumptions C07_sadump_bit_iff_readable_single.
+
+(** SADUMP: both page maps hold exactly the frames of the bit lists the writer packs *)
+Theorem C07_sadump_pagemap_sources : forall al mbits dbits rest hdr_pos bs sub bb db max_pfn orc,
+  (length mbits <= 8 * N.to_nat (bs * bb))%nat -> (length dbits <= 8 * N.to_nat (bs * db))%nat ->
+  let mem := bits_to_bytes true (N.to_nat (bs * bb)) mbits in
+  let dump := bits_to_bytes true (N.to_nat (bs * db)) dbits in
+  let g := sadump_geom hdr_pos bs sub bb db in
+  match fst (snd (sd_file_regions al (mem ++ dump ++ rest) g max_pfn orc)) with
+  | ROk rs => forall p, existsb (fun r => inb r p) rs = nth (N.to_nat p) dbits false
+  | RNoMem _ => In false orc
+  | ROob | RFuel => False
+  end /\
+  match fst (snd (sd_mem_regions al (mem ++ dump ++ rest) g max_pfn orc)) with
+  | ROk rs => forall p, existsb (fun r => inb r p) rs = nth (N.to_nat p) mbits false
+  | RNoMem _ => In false orc
+  | ROob | RFuel => False
+  end.
+Proof. exact sd_pagemap_sources. Qed.
+Print Assumptions C07_sadump_pagemap_sources.
+
+(** ELF ([_aligned]: every LOAD segment page aligned): for the state C01's reader
+    opens, for every value of the lookup caches ([same_arrays]) *)
+Theorem C07_elf_bit_iff_readable_aligned : forall l segs sh,
+  Fmt.ElfOpenProofs.elf_wf l segs -> sh < 64 ->
+  (forall s, In s segs -> Fmt.ElfOpenProofs.is_load s ->
+     Fmt.ElfSpec.sg_phys s mod 2 ^ sh = 0 /\ Fmt.ElfSpec.sg_filesz s mod 2 ^ sh = 0 /\
+     Fmt.ElfSpec.sg_memsz s mod 2 ^ sh = 0) ->
+  exists st0, Fmt.ElfModel.elf_open (read_files [Fmt.ElfSpec.encode_elf l segs]) 1 = Ok st0 /\
+    wf_segs sh (List.map EL.of_ls (Fmt.ElfModel.es_sorted st0)) /\
+    forall st, Fmt.ElfProofs.same_arrays st st0 ->
+    forall p, 2 ^ sh * p + 2 ^ sh < 2 ^ 64 ->
+      (emapped false sh (List.map EL.of_ls (Fmt.ElfModel.es_sorted st0)) p = true <->
+       fst (Fmt.ElfModel.elf_get_page (read_files [Fmt.ElfSpec.encode_elf l segs]) (2 ^ sh) false false st
+                                      (2 ^ sh * p)) <> Err ERR_NODATA).
+Proof. exact EL.bit_iff_readable. Qed.
+Print Assumptions C07_elf_bit_iff_readable_aligned.
 
 (** the pinned code does not have the property (each witness replayed on the
     real pfn.c is a finding; see known_findings.d/C07.json) *)
